@@ -15,7 +15,8 @@ CONSTANTS
     Exts,        \* subset of {0,1}: extension lines in the checkpoint text
     BadKinds,    \* kinds of wrong proofs (flip, drop, add, random, short)
     BadAuths,    \* classes of notes that are not "text signed by this log's key with this log's origin"
-    WithUnknown  \* also submit under an unknown log id
+    WithUnknown, \* also submit under an unknown log id
+    EnvActions   \* environment steps that may happen between requests: subset of {"restart", "upgrade", "future", "legacyonly"}
 
 VARIABLES stored,   \* [Logs -> CP \cup {None}]
           last,     \* last request and reply (observation)
@@ -84,7 +85,34 @@ NextUpdate ==
              \E pf \in ProofMenu(st, old, b, n) : Update(l, GoodReq(old, b, n, e, s, x, pf))
        \/ \E a \in BadAuths, n \in Size : Update(l, BadReq(a, n))
 
-Next == NextUpdate \/ (\E l \in AllLogs : GetCheckpoint(l)) \/ GetLogs
+(***************************************************************************)
+(* The environment between two requests.  None of these steps is taken by  *)
+(* the witness; every property below has to survive them.                  *)
+(*   restart    : the process is stopped and started on the same store     *)
+(*   upgrade    : ... on the store as the pinned release left it (same     *)
+(*                rows, the release's schema and parameter binding)        *)
+(*   future     : the stored checkpoint of a log is the one an earlier     *)
+(*                incarnation cosigned while its clock ran ahead           *)
+(*   legacyonly : ... cosigned before the cosignature/v1 key joined the    *)
+(*                signer set (one witness line fewer)                      *)
+(* The abstract state keeps tree and extension; legacyonly drops a line.   *)
+(***************************************************************************)
+Restart(kind) ==
+    /\ kind \in EnvActions \cap {"restart", "upgrade"}
+    /\ last' = [a |-> "env", kind |-> kind, log |-> "-"]
+    /\ UNCHANGED <<stored, ctr>>
+
+Reincarnate(l, kind) ==
+    /\ kind \in EnvActions \cap {"future", "legacyonly"}
+    /\ l \in Logs /\ stored[l] # None
+    /\ (kind = "legacyonly" => NWitKeys = 2 /\ stored[l].lines = 1 + NWitKeys)      \* (both witness lines present, no foreign ones: dropped once)
+    /\ stored' = [stored EXCEPT ![l] = IF kind = "legacyonly" THEN [@ EXCEPT !.lines = @ - 1] ELSE @]
+    /\ last' = [a |-> "env", kind |-> kind, log |-> l]
+    /\ UNCHANGED ctr
+
+NextEnv == (\E k \in EnvActions : Restart(k)) \/ (\E l \in Logs, k \in EnvActions : Reincarnate(l, k))
+
+Next == NextUpdate \/ (\E l \in AllLogs : GetCheckpoint(l)) \/ GetLogs \/ NextEnv
 
 Spec    == Init /\ [][Next]_vars
 SpecAny == InitAny /\ [][NextUpdate]_vars
